@@ -615,6 +615,18 @@ int main(int argc, char **argv) {
         int after = 0;
         log_fault = fm;
         if (!strcmp(fm, "exit1_silent")) { write_log(argc, argv, cmd, 1); return 1; }
+        if (!strcmp(fm, "exit1_unprocessed_output")) {
+            /* the input document (template or plaintext, nothing signed or encrypted) lands in the output file, then an error exit */
+            if (opt_output != NULL && input_file != NULL) {
+                FILE *in = fopen(opt_xml_data ? opt_xml_data : input_file, "rb"), *out = fopen(opt_output, "wb");
+                char buf[4096]; size_t k;
+                if (in && out) while ((k = fread(buf, 1, sizeof buf, in)) > 0) fwrite(buf, 1, k, out);
+                if (in) fclose(in);
+                if (out) fclose(out);
+            }
+            fprintf(stderr, "Error: operation failed\n");
+            write_log(argc, argv, cmd, 1); return 1;
+        }
         if (!strcmp(fm, "exit0_silent") || !strcmp(fm, "no_output")) {
             if (!strcmp(fm, "no_output")) fprintf(stderr, "SignedInfo References (ok/all): 1/1\n");
             write_log(argc, argv, cmd, 0); return 0;
